@@ -158,6 +158,12 @@ func (sesh *Session) OpenStream() (*Stream, error) {
 	stream := makeStream(sesh, id)
 	common.VerifPoint("openStream.beforeRegister")
 	sesh.streamsM.Lock()
+	if sesh.IsClosed() {
+		// closeSession has already closed (or is about to close) every registered stream under streamsM;
+		// a stream registered now would never be closed and its readers would block forever
+		sesh.streamsM.Unlock()
+		return nil, ErrBrokenSession
+	}
 	sesh.streams[id] = stream
 	sesh.streamsM.Unlock()
 	sesh.streamCountIncr()
